@@ -1,7 +1,7 @@
 """C19 - on-disk normalize rewrites notes in place and never leaves a damaged file."""
 from vlib import factbase as fb
 from vlib import q
-from .common import ctx, loc
+from .common import ctx, loc, str_template
 from . import c14
 
 FS_MUTATORS = {
@@ -81,6 +81,14 @@ def rule_r2(facts, rep, rid="C19-R2"):
     # temporary sibling must not be picked up by the loader (extension != md) and live in the same directory
     lits = [x.get("v", "") for x in fb.walk(f.body) if x.get("k") == "lit"]
     tmp_like = [l for l in lits if ".md" in l and (l.rstrip("·").endswith(("tmp", "~", "swp", "new", "part")) or ".tmp" in l)]
+    # the same through whatever builds the two names: temporary = final + a non-empty suffix that does not end in `.md`
+    tw, td = str_template(c, wt), str_template(c, rd)
+    if hr and isinstance(tw[-1], str) and isinstance(td[-1], str):
+        if tw[:-1] == td[:-1] and tw[-1].startswith(td[-1]) and tw[-1] != td[-1] and not tw[-1].endswith(".md"):
+            tmp_like = ["".join(p if isinstance(p, str) else "{}" for p in tw)]
+        else:
+            tmp_like = []
+            lits = ["".join(p if isinstance(p, str) else "{}" for p in tw), "".join(p if isinstance(p, str) else "{}" for p in td)]
     if hr and not tmp_like:
         rep.violation(rid, f.def_ + "|temporary-is-not-a-note", "cannot see a temporary name whose extension differs from `.md` (literals: %s): the loader would pick the temporary up as a note" % lits, f.loc)
     elif hr:
